@@ -1795,7 +1795,9 @@ class FrozenSet(Opcode):
         else:
             raise ValueError("Exhausted the stack while searching for a MarkObject!")
 
-        interpreter.stack.append(ast.Constant(ast.Set(elts=objs[::-1])))
+        interpreter.stack.append(
+            ast.Call(ast.Name("frozenset", ast.Load()), [ast.Set(elts=objs[::-1])], [])
+        )
 
 
 class Dup(Opcode):
